@@ -72,6 +72,13 @@ CHECKS = {
         "Line-level granularity outside the commit functions. Known findings (17 call sites in NestedSampler.consume_sample between removal and insertion) are listed in known_findings.json; any other site is reported.",
         "4/C13",
     ),
+    "C14": (
+        "exploration",
+        "lattice of parallelisation settings executed in separate interpreter processes plus every completion order of a controllable pool (deviation-bounded)",
+        "Both samplers x two seeds x parallelisation settings (n_pool 1..4, user-supplied fork pool, chunk sizes 1 / 7 / larger than any batch, parallel prior) run in separate interpreter processes under two PYTHONHASHSEED values and twice within one process; an in-process controllable pool runs each map call under every completion order (deviation 1: one call deviates; deviation 2 in thorough: two calls). Byte digests of nested samples, logZ, posterior weights and the evaluation counter must coincide within a seed class.",
+        "Exactly rounded (+,* only) likelihood. Pools of undiscoverable size (documented fallback with a different random stream) are outside the lattice.",
+        "4/C14",
+    ),
     "C15": (
         "model_checking",
         "exhaustive trajectory words on a scripted proposal and exhaustive criteria x tolerance lattices, each prediction replayed as a real run",
@@ -100,6 +107,20 @@ CHECKS = {
         "Reserved field names are not used as parameter names.",
         "4/C18",
     ),
+    "C19": (
+        "exploration",
+        "exhaustive value-type x nesting x format lattice plus real result dictionaries under every extension spelling",
+        "Seven finished real runs (both samplers; converged, prior-only, capped, with and without the INS independent set) are saved under all nine spellings of (format, file name, extension argument) and read back with json / h5py; every value type of a 26-letter alphabet (NaN, +-inf, None, numpy scalars incl. longdouble, 0-d / empty / structured arrays, lists of arrays, nested dicts ...) is saved at top level, inside a dict, at depth 2 and inside a list in both formats; config.json is written for 13 keyword sets with classes, functions, lambdas, a live pool, torch dtypes, arrays and non-finite numbers and read back with the standard reader. Comparison is field by field under a type-aware equality.",
+        "None inside a list has no HDF5 representation and does not occur in results (excluded for HDF5 only).",
+        "4/C19",
+    ),
+    "C20": (
+        "exploration",
+        "deviation-bounded option lattice (every value alone; pairwise covering array) with draw-count and wall-clock bounds",
+        "Every value of every option of the documented alphabet (65 standard-sampler options, 37 INS options, incl. one deliberately invalid value per option) is run on its own on tiny well-posed models (thorough: two models, two seeds, plus a greedy pairwise covering array over the valid values). Each run is classified: rejected before the first live point is drawn, completed and passing the C05 oracle, failing during or after sampling, population loop exceeding 1000x its nominal number of latent draws, or exceeding the 120 s wall-clock backstop.",
+        "Known findings: INS train_final_flow, bootstrap, redraw_samples (all variants) and late detection of an unknown INS flow type.",
+        "4/C20",
+    ),
 }
 
 NOT_APPLICABLE = [
@@ -111,7 +132,7 @@ NOT_APPLICABLE = [
 
 ENGINES = [
     {"name": "E1/E2 explorer", "path": "mc/explore.py", "serves_properties": ["C01", "C04", "C18"], "kind_free_text": "level-synchronous explicit-state BFS over real transition functions (history replay, canonical hashing, lock-step reference model); deviation-bounded choice-tree DFS"},
-    {"name": "real-run driver and monitors", "path": "mc/runs.py", "serves_properties": ["C01", "C03", "C05", "C11", "C12", "C13", "C15"], "kind_free_text": "tiny configurations of both samplers, kill-at-checkpoint resume histories, invariant monitors (mc/monitors.py), independent result oracles"},
+    {"name": "real-run driver and monitors", "path": "mc/runs.py", "serves_properties": ["C01", "C03", "C05", "C11", "C12", "C13", "C14", "C15", "C19", "C20"], "kind_free_text": "tiny configurations of both samplers, kill-at-checkpoint resume histories, invariant monitors (mc/monitors.py), independent result oracles"},
     {"name": "E3 fault-enumerating file system", "path": "mc/faultfs.py", "serves_properties": ["C11"], "kind_free_text": "records exists/move/open/write/close/torch.save of the real code and enumerates every crash image incl. byte prefixes"},
     {"name": "E4 interruption injector", "path": "mc/interrupt.py", "serves_properties": ["C13"], "kind_free_text": "sys.settrace line/opcode events on nessai frames inside a window of the sampling loop; fires the installed signal handler at a chosen event; site de-duplication"},
     {"name": "runner", "path": "mc/core.py", "serves_properties": [], "kind_free_text": "context, 16-process fork pool, evidence writer with schema validation, known-finding matcher, replay files"},
